@@ -86,7 +86,7 @@ class Victim:
 
 # ---------------------------------------------------------------------------------------------
 # message specs -> bytes (the harness's own encoder; payloads come from the real serializers)
-BASES = ["connect", "invoke", "boom", "ping", "ow", "batch", "garbage", "unknown_member", "private_member", "gen", "blob"]
+BASES = ["connect", "invoke", "boom", "ping", "ow", "batch", "garbage", "unknown_member", "private_member", "gen", "blob", "daemon_ping"]
 OBJS = ["tok", "tok", "tok", "nope", "Pyro.Daemon"]
 BOUND8 = [0, 1, 0x7f, 0x80, 0xff]
 BOUND16 = [0, 1, 0x7fff, 0x8000, 0xffff]
@@ -132,6 +132,29 @@ def gen_msgspec(rng, allow=BASES):
     return spec
 
 
+HANDS = ["valid", "nondict", "list", "missing_handshake", "missing_object", "object_int", "extra_keys", "none"]
+
+
+def handshake_payload(hand, obj):
+    if hand == "valid":
+        return {"handshake": "hello", "object": obj}
+    if hand == "nondict":
+        return "just a string"
+    if hand == "list":
+        return ["handshake", "object"]
+    if hand == "missing_handshake":
+        return {"object": obj}
+    if hand == "missing_object":
+        return {"handshake": "hello"}
+    if hand == "object_int":
+        return {"handshake": "hello", "object": 42}
+    if hand == "extra_keys":
+        return {"handshake": {"nested": [1, 2, 3]}, "object": obj, "extra": "x"}
+    if hand == "none":
+        return None
+    raise ValueError(hand)
+
+
 def build_msg(spec):
     base = spec["base"]
     if base == "garbage":
@@ -146,7 +169,7 @@ def build_msg(spec):
     ann = {}
     if base == "connect":
         typ = N.MSG_CONNECT
-        payload = ser.dumps({"handshake": "hello", "object": obj})
+        payload = ser.dumps(handshake_payload(spec.get("hand", "valid"), obj))
     elif base == "ping":
         typ = N.MSG_PING
         payload = b"ping"
@@ -163,6 +186,8 @@ def build_msg(spec):
         calls = [("echo", ["HB%d" % spec["arg"]], {}), ("boom", [spec["arg"] % 9], {}), ("echo", ["never"], {})]
         payload = ser.dumpsCall(obj, "<batch>", calls, None)
         flags |= N.FLAG_BATCH
+    elif base in ("invoke_daemon", "daemon_ping"):
+        payload = ser.dumpsCall("Pyro.Daemon", ["ping", "registered", "info"][spec["arg"] % 3], [], {})
     elif base == "unknown_member":
         payload = ser.dumpsCall(obj, "nosuchmethod%d" % spec["arg"], [], {})
     elif base == "private_member":
